@@ -1321,3 +1321,15 @@ Proof. reflexivity. Qed.
 
 Lemma write_step_fresh body force s : write_step body None force s = (Some (render_file body s), WOk).
 Proof. reflexivity. Qed.
+
+(* ================= several files in one run ================= *)
+Lemma run_all_independent body fsys pre j post :
+  nth (length pre) (run_all body fsys (pre ++ j :: post)) None =
+  option_map (render_file body) (job_settings fsys j).
+Proof.
+  unfold run_all. rewrite map_app. simpl.
+  rewrite app_nth2 by (rewrite map_length; lia). rewrite map_length, Nat.sub_diag. reflexivity.
+Qed.
+
+Lemma run_all_length body fsys jobs : length (run_all body fsys jobs) = length jobs.
+Proof. apply map_length. Qed.
